@@ -12,6 +12,8 @@ CONSTANTS
   MaxParams = 4
   MaxOuter = 2
   MaxSeq = 3
-  MemRots = {0, 1, 2, 3, 4, 5, 6}
+  MaxSeqDep = 2
+  MemDeps = "few"
+  MemRots = {0, 1, 2, 3, 4, 5, 6, 7, 8, 9, 10}
 INVARIANTS ClausesHold Replayable NoCallAfterFailure StagesInOrderOnce ErrorOnlyFromFailure MemInvariants PlumbInvariants StringInvariants Export
 CHECK_DEADLOCK FALSE
